@@ -60,6 +60,7 @@ type Prog struct {
 
 	fileOf map[*ast.File]*packages.Package
 	A      *Anchors
+	Overlay map[string][]byte
 }
 
 // applyOverlay builds a go/packages overlay from substitutions. It fails if a
@@ -146,7 +147,7 @@ func Load(repo string, overlay map[string][]byte, extraEnv []string, needSSA boo
 	if len(pkgs) == 0 {
 		return nil, fmt.Errorf("load: zero packages")
 	}
-	p := &Prog{RepoDir: repo, Env: env, Fset: fset, Pkgs: map[string]*packages.Package{}, SSAPkg: map[string]*ssa.Package{},
+	p := &Prog{RepoDir: repo, Env: env, Fset: fset, Overlay: overlay, Pkgs: map[string]*packages.Package{}, SSAPkg: map[string]*ssa.Package{},
 		fileOf: map[*ast.File]*packages.Package{}}
 	var errs []string
 	packages.Visit(pkgs, nil, func(pk *packages.Package) {
